@@ -9,7 +9,8 @@ from tcv.hyp import Violation
 from tcv.runtime import RT
 
 CONFIG_ONLY = ['chg_value', 'chg_value', 'chg_value_deep', 'retag', 'chg_obj_arg', 'chg_context', 'drop_optional',
-               'rename_files', 'perm_keys', 'fmt_swap', 'perm_uses', 'to_context', 'chg_default_param']
+               'rename_files', 'perm_keys', 'fmt_swap', 'perm_uses', 'to_context', 'chg_default_param', 'swap_mounts',
+               'swap_mounts', 'rename_mount', 'rename_mount']
 
 
 @st.composite
@@ -17,7 +18,12 @@ def variants_of(draw, base, n):
     out = [base]
     for _ in range(n):
         src = draw(st.sampled_from(out))
-        v, _prefix, labels = draw(mutate.rewrite(src, CONFIG_ONLY, n_max=2))
+        kinds = CONFIG_ONLY
+        if src.get('context') and draw(st.integers(0, 2)) == 0:
+            # another context layer on top of the existing ones (often for a namespace they already address): the
+            # caller-owned layer objects are shared by the chains of both variants
+            kinds = ['chg_context']
+        v, _prefix, labels = draw(mutate.rewrite(src, kinds, n_max=2))
         v['program'] = base['program']
         v['variant_labels'] = labels
         out.append(v)
